@@ -162,7 +162,7 @@ def c19(F, R, tier):
 
 @prop("C20",
       technique="static: purity (no arithmetic) of every hop of the dual-value path, positional pairing of (name, constraint reference) inside one loop iteration, filter shape, on typed HIR",
-      explanation="THIN CLAIM: decides only that the bridge is a pure forwarder. (PURE-FORWARD) collect_good_lp_duals, LpSolution::with_shadow_prices/shadow_prices, DualValues::shadow_price, BuilderSolution::shadow_price and the Clarabel extraction closure perform no arithmetic on the dual and pass it on unmodified; (PAIRING) the stored value is dual.dual(reference) of the reference paired with that name in the same tuple, the pair is built from add_constraint(row) and row.name() in the same loop iteration, rows with an empty name are filtered by is_empty and nothing else is filtered or reordered. NOT decided: that the dual value reported by good_lp/Clarabel equals the sensitivity of the optimum, its sign convention for min/max and <=/>= rows, zero for inactive rows -- all numeric facts of the dependencies.")
+      explanation="THIN CLAIM: decides only that the bridge is a pure forwarder. (PURE-FORWARD) collect_good_lp_duals, LpSolution::with_shadow_prices/shadow_prices, DualValues::shadow_price, BuilderSolution::shadow_price and the Clarabel extraction closure perform no arithmetic on the dual and pass it on unmodified; (PAIRING) the stored value is dual.dual(reference) of the reference paired with that name in the same tuple, the pair is built from add_constraint(row) and row.name() in the same loop iteration, rows with an empty name are filtered by is_empty and nothing else is filtered or reordered; (T-MAP, shared with C04) the bridge hands good_lp the model's own direction and builds every row as `expression <relation> right-hand side` with the relation of the model (good_lp defines a dual as the sensitivity to the constant on the right: a row written the other way round returns the dual with the opposite sign). NOT decided: that the dual value reported by good_lp/Clarabel equals the sensitivity of the optimum, its sign convention for min/max and <=/>= rows, zero for inactive rows -- all numeric facts of the dependencies.")
 def c20(F, R, tier):
     import c20 as mod
     mod.check(F, R)
@@ -170,6 +170,8 @@ def c20(F, R, tier):
     # the model's own direction (Max -> Maximisation), not a re-normalised objective
     import c04
     c04.t_map_direction(F, R)
+    # ... and from the orientation of each row: the constant must stay on the right of the relation it was written with
+    c04.t_map_comparison(F, R)
 
 
 @prop("C10",
@@ -238,10 +240,13 @@ def c16(F, R, tier):
 
 @prop("C03",
       technique="static: stage-order dominance on MIR, error-propagation discipline on typed HIR, type-level infallibility of bound inference, arm-shape rule for detected contradictions",
-      explanation="THIN CLAIM (pipeline shape only). Decides (D-STAGES) in RoocSolver::solve_with_data_using the calls create_type_checker -> transform -> Linearizer::linearize -> solver callback each dominate the next, the solver receives the linearised model, and in lib.rs, the pipes and the builder every Result of a stage call (parse, type check, transform, linearize, standardise, tableau, solver entries) is propagated with `?`/an Err arm and never discarded (.ok(), unwrap_or, let _, wrapped in Ok); (T-CONTRADICTION) BoundsAnalyzer::analyze/analyze_with_options/propagate/apply_to_domain do not return Result and no function of bounds.rs does; a constraint normalised to a contradiction and a constant assertion of the wrong truth value emit the row 0 = 1 and continue; an empty rounded integer range keeps the declared domain; (EARLY-OK) no public solver entry returns Ok without a back-end call unless it consulted the rows. NOT decided: everything semantic -- that returned values satisfy the text, that the objective is optimal, that infeasible texts get the infeasible verdict. Static analysis contributes least here; see C01, C02, C04, C05, C09 for the tables this property leans on.")
+      explanation="THIN CLAIM (pipeline shape only). Decides (D-STAGES) in RoocSolver::solve_with_data_using the calls create_type_checker -> transform -> Linearizer::linearize -> solver callback each dominate the next, the solver receives the linearised model, and in lib.rs, the pipes and the builder every Result of a stage call (parse, type check, transform, linearize, standardise, tableau, solver entries) is propagated with `?`/an Err arm and never discarded (.ok(), unwrap_or, let _, wrapped in Ok); (T-CONTRADICTION) BoundsAnalyzer::analyze/analyze_with_options/propagate/apply_to_domain do not return Result and no function of bounds.rs does; a constraint normalised to a contradiction and a constant assertion of the wrong truth value emit the row 0 = 1 and continue; an empty rounded integer range keeps the declared domain; (EARLY-OK) no public solver entry returns Ok without a back-end call unless it consulted the rows. (T-LOGIC-TEMPLATES, shared with C01) the rows emitted for every logic form (assertions and reified values, 115 forms) are decided on the whole Boolean cube. NOT decided: everything semantic -- that returned values satisfy the text, that the objective is optimal, that infeasible texts get the infeasible verdict. Static analysis contributes least here; see C01, C02, C04, C05, C09 for the tables this property leans on.")
 def c03(F, R, tier):
     import c03 as mod
     mod.check(F, R)
+    # a wrong row in a logic lowering is a wrong answer end to end: the template cube check of C01 is shared
+    import c01
+    c01.t_logic_templates(F, R)
 
 
 @prop("C14",
